@@ -220,6 +220,137 @@ pub fn handmade_requests() -> Vec<(String, Vec<u8>)> {
 	out
 }
 
+/// correctly signed requests at the edges of "what the request asks for" and "the key it embeds":
+/// several extension requests, several values of one, a repeated extension, key usage values
+/// rcgen cannot carry (unnamed bits, no bit, trailing zero bits), SubjectPublicKeyInfo encodings
+/// that a re-encoding would not reproduce, and keys declared as another kind than the one that
+/// signed
+pub fn edge_requests(rsa_pkcs8: &[u8]) -> Vec<(String, Vec<u8>)> {
+	let rng = ring::rand::SystemRandom::new();
+	let oid = |b: &[u8]| tlv(0x06, b);
+	let null = vec![0x05u8, 0x00];
+	let name = tlv(0x30, &tlv(0x31, &tlv(0x30, &[&[0x06, 0x03, 0x55, 0x04, 0x03][..], &tlv(0x0c, b"edge")].concat())));
+	let ed_alg = tlv(0x30, &oid(&[0x2b, 0x65, 0x70]));
+	let rsa_key_alg = tlv(0x30, &[oid(&[0x2a, 0x86, 0x48, 0x86, 0xf7, 0x0d, 0x01, 0x01, 0x01]), null.clone()].concat());
+	let p256_key_alg = tlv(0x30, &[oid(&[0x2a, 0x86, 0x48, 0xce, 0x3d, 0x02, 0x01]), oid(&[0x2a, 0x86, 0x48, 0xce, 0x3d, 0x03, 0x01, 0x07])].concat());
+	let rsa256_sig = tlv(0x30, &[oid(&[0x2a, 0x86, 0x48, 0x86, 0xf7, 0x0d, 0x01, 0x01, 0x0b]), null.clone()].concat());
+	let ext = |o: &[u8], critical: bool, value: Vec<u8>| {
+		let mut body = oid(o);
+		if critical {
+			body.extend([0x01, 0x01, 0xff]);
+		}
+		body.extend(tlv(0x04, &value));
+		tlv(0x30, &body)
+	};
+	let ku = |v: &[u8]| ext(&[0x55, 0x1d, 0x0f], true, v.to_vec());
+	let san = |h: &[u8]| ext(&[0x55, 0x1d, 0x11], false, tlv(0x30, &tlv(0x82, h)));
+	let eku = |last: u8| ext(&[0x55, 0x1d, 0x25], false, tlv(0x30, &oid(&[0x2b, 0x06, 0x01, 0x05, 0x05, 0x07, 0x03, last])));
+	let ext_req_oid = oid(&[0x2a, 0x86, 0x48, 0x86, 0xf7, 0x0d, 0x01, 0x09, 0x0e]);
+	// an attribute: OID + SET OF values (sorted, as DER wants)
+	let attr = |o: &Vec<u8>, values: Vec<Vec<u8>>| {
+		let mut v = values;
+		v.sort();
+		tlv(0x30, &[o.clone(), tlv(0x31, &v.concat())].concat())
+	};
+	let req = |exts: Vec<Vec<u8>>| tlv(0x30, &exts.concat());
+	let attrs_of = |list: Vec<Vec<u8>>| {
+		let mut l = list;
+		l.sort();
+		tlv(0xa0, &l.concat())
+	};
+	let challenge = attr(&oid(&[0x2a, 0x86, 0x48, 0x86, 0xf7, 0x0d, 0x01, 0x09, 0x07]), vec![tlv(0x0c, b"secret")]);
+	let mut out: Vec<(String, Vec<u8>)> = Vec::new();
+	let Ok(doc) = rs::Ed25519KeyPair::generate_pkcs8(&rng) else { return out };
+	let kp = rs::Ed25519KeyPair::from_pkcs8(doc.as_ref()).unwrap();
+	use rs::KeyPair as _;
+	let pk = kp.public_key().as_ref().to_vec();
+	let bit_string = |unused: u8, bytes: &[u8]| {
+		let mut b = vec![unused];
+		b.extend_from_slice(bytes);
+		tlv(0x03, &b)
+	};
+	let ed_spki = tlv(0x30, &[ed_alg.clone(), bit_string(0, &pk)].concat());
+	let assemble = |spki: &Vec<u8>, attrs: &Vec<u8>, sig_alg: &Vec<u8>, sign: &dyn Fn(&[u8]) -> Vec<u8>| {
+		let info = tlv(0x30, &[vec![0x02, 0x01, 0x00], name.clone(), spki.clone(), attrs.clone()].concat());
+		let sig = sign(&info);
+		tlv(0x30, &[info, sig_alg.clone(), bit_string(0, &sig)].concat())
+	};
+	let ed_sign = |m: &[u8]| kp.sign(m).as_ref().to_vec();
+	// --- what the request asks for
+	let attr_sets: Vec<(&str, Vec<u8>)> = vec![
+		("one-request", attrs_of(vec![attr(&ext_req_oid, vec![req(vec![san(b"a.example"), ku(&[0x03, 0x02, 0x05, 0xa0])])])])),
+		("one-request-and-challenge", attrs_of(vec![attr(&ext_req_oid, vec![req(vec![san(b"a.example")])]), challenge.clone()])),
+		("two-requests", attrs_of(vec![attr(&ext_req_oid, vec![req(vec![san(b"a.example")])]), attr(&ext_req_oid, vec![req(vec![ku(&[0x03, 0x02, 0x05, 0xa0])])])])),
+		("two-requests-same-extension", attrs_of(vec![attr(&ext_req_oid, vec![req(vec![san(b"a.example")])]), attr(&ext_req_oid, vec![req(vec![san(b"b.example")])])])),
+		("request-with-two-values", attrs_of(vec![attr(&ext_req_oid, vec![req(vec![san(b"a.example")]), req(vec![ku(&[0x03, 0x02, 0x05, 0xa0])])])])),
+		("request-with-two-values-same-extension", attrs_of(vec![attr(&ext_req_oid, vec![req(vec![san(b"a.example")]), req(vec![san(b"b.example")])])])),
+		("request-with-empty-sequence", attrs_of(vec![attr(&ext_req_oid, vec![req(vec![])])])),
+		("san-twice", attrs_of(vec![attr(&ext_req_oid, vec![req(vec![san(b"a.example"), san(b"b.example")])])])),
+		("ku-twice", attrs_of(vec![attr(&ext_req_oid, vec![req(vec![ku(&[0x03, 0x02, 0x07, 0x80]), ku(&[0x03, 0x02, 0x05, 0x20])])])])),
+		("ku-twice-identical", attrs_of(vec![attr(&ext_req_oid, vec![req(vec![ku(&[0x03, 0x02, 0x07, 0x80]), ku(&[0x03, 0x02, 0x07, 0x80])])])])),
+		("eku-twice", attrs_of(vec![attr(&ext_req_oid, vec![req(vec![eku(1), eku(2)])])])),
+		("ku-single-bit", attrs_of(vec![attr(&ext_req_oid, vec![req(vec![ku(&[0x03, 0x02, 0x07, 0x80])])])])),
+		("ku-decipher-only", attrs_of(vec![attr(&ext_req_oid, vec![req(vec![ku(&[0x03, 0x03, 0x07, 0x00, 0x80])])])])),
+		("ku-all-nine", attrs_of(vec![attr(&ext_req_oid, vec![req(vec![ku(&[0x03, 0x03, 0x07, 0xff, 0x80])])])])),
+		("ku-unnamed-bit-9", attrs_of(vec![attr(&ext_req_oid, vec![req(vec![ku(&[0x03, 0x03, 0x06, 0x80, 0x40])])])])),
+		("ku-unnamed-bit-15", attrs_of(vec![attr(&ext_req_oid, vec![req(vec![ku(&[0x03, 0x03, 0x00, 0x80, 0x01])])])])),
+		("ku-only-unnamed-bits", attrs_of(vec![attr(&ext_req_oid, vec![req(vec![ku(&[0x03, 0x03, 0x04, 0x00, 0x10])])])])),
+		("ku-three-octets", attrs_of(vec![attr(&ext_req_oid, vec![req(vec![ku(&[0x03, 0x04, 0x00, 0x80, 0x00, 0x01])])])])),
+		("ku-empty", attrs_of(vec![attr(&ext_req_oid, vec![req(vec![ku(&[0x03, 0x01, 0x00])])])])),
+		("ku-zero-octet", attrs_of(vec![attr(&ext_req_oid, vec![req(vec![ku(&[0x03, 0x02, 0x00, 0x00])])])])),
+		("ku-trailing-zero-bits", attrs_of(vec![attr(&ext_req_oid, vec![req(vec![ku(&[0x03, 0x02, 0x00, 0x80])])])])),
+		("ku-trailing-zero-octet", attrs_of(vec![attr(&ext_req_oid, vec![req(vec![ku(&[0x03, 0x03, 0x00, 0x80, 0x00])])])])),
+		("ku-not-critical", attrs_of(vec![attr(&ext_req_oid, vec![req(vec![ext(&[0x55, 0x1d, 0x0f], false, vec![0x03, 0x02, 0x05, 0xa0])])])])),
+	];
+	for (n, attrs) in &attr_sets {
+		out.push((format!("asks/{}", n), assemble(&ed_spki, attrs, &ed_alg, &ed_sign)));
+	}
+	// --- the key it embeds: SubjectPublicKeyInfo encodings a re-encoding does not reproduce
+	let no_attrs = vec![0xa0u8, 0x00];
+	let long_form = |tag: u8, content: &[u8]| {
+		let mut v = vec![tag, 0x81, content.len() as u8];
+		v.extend_from_slice(content);
+		v
+	};
+	let mut pk_padded = pk.clone();
+	pk_padded.push(0);
+	let spkis: Vec<(&str, Vec<u8>)> = vec![
+		("plain", ed_spki.clone()),
+		("unused-bits-declared", tlv(0x30, &[ed_alg.clone(), bit_string(1, &pk)].concat())),
+		("unused-bits-7", tlv(0x30, &[ed_alg.clone(), bit_string(7, &pk)].concat())),
+		("bit-string-long-form-length", tlv(0x30, &[ed_alg.clone(), long_form(0x03, &[&[0u8][..], &pk[..]].concat())].concat())),
+		("sequence-long-form-length", long_form(0x30, &[ed_alg.clone(), bit_string(0, &pk)].concat())),
+		("algorithm-long-form-length", tlv(0x30, &[long_form(0x30, &oid(&[0x2b, 0x65, 0x70])), bit_string(0, &pk)].concat())),
+		("oid-long-form-length", tlv(0x30, &[tlv(0x30, &long_form(0x06, &[0x2b, 0x65, 0x70])), bit_string(0, &pk)].concat())),
+		("key-with-extra-octet", tlv(0x30, &[ed_alg.clone(), bit_string(0, &pk_padded)].concat())),
+		("constructed-bit-string", tlv(0x30, &[ed_alg.clone(), tlv(0x23, &bit_string(0, &pk))].concat())),
+		// declared as another kind of key than the one that signs
+		("declared-rsa", tlv(0x30, &[rsa_key_alg.clone(), bit_string(0, &pk)].concat())),
+		("declared-p256", tlv(0x30, &[p256_key_alg.clone(), bit_string(0, &pk)].concat())),
+	];
+	for (n, spki) in &spkis {
+		out.push((format!("key/ed25519/{}", n), assemble(spki, &no_attrs, &ed_alg, &ed_sign)));
+	}
+	if let Ok(rkp) = rs::RsaKeyPair::from_pkcs8(rsa_pkcs8) {
+		let rpk = rkp.public_key().as_ref().to_vec();
+		let rsa_sign = |m: &[u8]| {
+			let mut sig = vec![0u8; rkp.public().modulus_len()];
+			rkp.sign(&rs::RSA_PKCS1_SHA256, &rng, m, &mut sig).unwrap();
+			sig
+		};
+		let rsa_spkis: Vec<(&str, Vec<u8>)> = vec![
+			("plain", tlv(0x30, &[rsa_key_alg.clone(), bit_string(0, &rpk)].concat())),
+			("declared-ed25519", tlv(0x30, &[ed_alg.clone(), bit_string(0, &rpk)].concat())),
+			("declared-p256", tlv(0x30, &[p256_key_alg.clone(), bit_string(0, &rpk)].concat())),
+			("unused-bits-declared", tlv(0x30, &[rsa_key_alg.clone(), bit_string(3, &rpk)].concat())),
+		];
+		for (n, spki) in &rsa_spkis {
+			out.push((format!("key/rsa/{}", n), assemble(spki, &no_attrs, &rsa256_sig, &rsa_sign)));
+		}
+	}
+	out
+}
+
 /// correctly signed requests whose AlgorithmIdentifiers are spelled in the other legal or
 /// near-legal ways (parameters NULL where usually absent and the reverse): the signature
 /// verifies, so the parser gets past its first gate with an identifier rcgen never writes
@@ -327,13 +458,24 @@ fn offer(s: &mut Suite, origin: &str, der: &[u8], tie_model: bool) -> Option<Cer
 		}
 	}
 	if tie_model {
-		let line = format!("parse-csr {} {} {} {}", cfg_name(), cfg!(feature = "aws"), verified.unwrap_or(false), hex(der));
+		// the model takes the third-party verifier's verdict as a parameter: x509-parser picks the
+		// scheme from the signature identifier and runs it on the key bits (rcgen adds P-521 under
+		// aws-lc-rs, for which the independent oracle's verdict stands in)
+		let parsed_by_third_party = {
+			use x509_parser::prelude::FromDer;
+			x509_parser::certification_request::X509CertificationRequest::from_der(der).map(|(_, c)| c.verify_signature().is_ok()).ok()
+		};
+		let third_party = parsed_by_third_party.unwrap_or(false) || (cfg!(feature = "aws") && verified == Some(true));
+		let line = format!("parse-csr {} {} {} {}", cfg_name(), cfg!(feature = "aws"), third_party, hex(der));
 		let model = s.drv.ask(&line);
 		s.rep.distinct.insert(crate::report::hash_str(&line));
 		if s.rep.samples.len() < 4 {
 			s.rep.samples.push(line.chars().take(500).collect());
 		}
-		if model != real {
+		// bytes the third-party parser refuses outright (its own strictness, e.g. non-zero padding
+		// bits) never reach rcgen's code: both sides must refuse, the error kind is the parser's
+		let both_refuse = parsed_by_third_party.is_none() && real == "(err CouldNotParseCertificationRequest)" && model.starts_with("(err ");
+		if model != real && !both_refuse {
 			s.rep.disagree("C06:parse-csr", "model and implementation differ on CSR parsing", format!("request: {}\nreal:  {}\nmodel: {}", line, real, model));
 		}
 	}
@@ -509,6 +651,14 @@ pub fn run(ctx: &mut Ctx) -> Report {
 			issue_and_check(&mut s, &format!("handmade:{}", name), &der, pp, None);
 		}
 	}
+	// --- edges of "what is asked for" and "the key embedded"
+	for (name, der) in edge_requests(&s.ctx.rsa_fixture.clone()) {
+		s.rep.count("edge_requests");
+		if let Some(pp) = offer(&mut s, &format!("edge:{}", name), &der, true) {
+			issue_and_check(&mut s, &format!("edge:{}", name), &der, pp, None);
+		}
+	}
+	s.rep.exhaustive.push("edge requests (Ed25519 / RSA, correctly signed): 23 attribute shapes (two extension requests, two values, repeated extensions, key usage values with unnamed / no / trailing zero bits) and 15 SubjectPublicKeyInfo encodings (unused bits, long-form lengths, constructed BIT STRING, key declared as another kind)".into());
 	s.rep.exhaustive.push("hand-built signed requests: 5 subject shapes (incl. RDNs of 2 and 3 attributes) x 11 extension-request shapes (supported, each/any standard EKU, unknown EKU alone / with any / with serverAuth, basicConstraints, private extension)".into());
 	// --- mutation sweep over accepted requests (implementation vs oracle only)
 	let budget = if s.ctx.thorough { 20 } else { 5 };
